@@ -12,7 +12,7 @@ import (
 )
 
 func init() {
-	register("C09", "Structural clauses of the walk contract: the protocol's path comparison is evaluated under every one of the 13 weak orderings of (byte of p1, byte of p2, separator) and must put the separator lowest and otherwise follow byte order, with the length difference as the tail (finite-ordering evaluation of the SSA branch conditions, exhaustive); the root is never reported; stats are built truthfully by one constructor from lstat-based sources (shared with C01); the inode map is per walk and link names come only from a hit under Nlink>1; sub-root walks prefix path, non-symlink link names and the reported path; enumeration is delegated to filepath.WalkDir on root+target. Does not decide 'every entry exactly once' or directory-before-contents (contract of filepath.WalkDir, trusted).", runC09)
+	register("C09", "Structural clauses of the walk contract: the protocol's path comparison is evaluated under every one of the 13 weak orderings of (byte of p1, byte of p2, separator) and must put the separator lowest and otherwise follow byte order, with the length difference as the tail (finite-ordering evaluation of the SSA branch conditions, exhaustive); the root is never reported; stats are built truthfully by one constructor from lstat-based sources (shared with C01); the inode map is per walk and link names come only from a hit under Nlink>1; sub-root walks prefix path, non-symlink link names and the reported path; the walker's root is the checked result of filepath.EvalSymlinks, tested to be a directory; enumeration is delegated to filepath.WalkDir on root+target. Does not decide 'every entry exactly once' or directory-before-contents (contract of filepath.WalkDir, trusted).", runC09)
 	register("C12", "Structural clauses of the stream validator: a fatal test exists for every lexical rejection class (unclean, absolute, '.', '..', '../' prefix), the last-child comparison rejects the orderings equal and greater and accepts less, a foreign parent is rejected, directory levels are opened only for non-delete directories, and the path comparison is the separator-lowest byte order under all 13 weak orderings of its atoms (exhaustive finite-ordering evaluation). Does not decide the 'if and only if' for all sequences nor the binary search over the open-directory stack.", runC12)
 }
 
@@ -24,6 +24,7 @@ func runC09(c *Ctx) {
 	r09_5(c, "R09.5")
 	r09_6(c, "R09.6")
 	r09_7(c, "R09.7")
+	r09_8(c, "R09.8")
 }
 
 func runC12(c *Ctx) {
@@ -622,5 +623,57 @@ func r09_7(c *Ctx, rule string) {
 		c.ObUnreachable(rule, base+"/built-once", fn, as, c.callPred("fsutil.mkstat"), "building the stat again", "it was built before (hard-link detection is first-seen: a second mkstat would report the entry as a link to itself)")
 	} else {
 		c.R.Fail(rule, base+"/built-once", c.P.Pos(fn.Pos()), "Info() does not cache the stat: a second call re-runs mkstat, which now finds the inode in the map and reports the entry as a hard link to itself")
+	}
+}
+
+// R09.8: the walker's root is a real directory path.
+//
+// fs.Walk hands root+target to filepath.WalkDir, which lstats its argument:
+// if the stored root still ends in a symlink the root is reported as a
+// non-directory, the callback for it is skipped as ".", and the walk of the
+// whole tree is silently empty. NewFS therefore stores the path
+// filepath.EvalSymlinks returned, and checks that call and that it is a
+// directory.
+func r09_8(c *Ctx, rule string) {
+	c.R.Rule(rule, "NewFS stores in fs.root the result of a checked filepath.EvalSymlinks of its argument, after a checked os.Stat of that result said 'directory'")
+	nf := c.Fn(rule, "fsutil.NewFS")
+	if nf == nil {
+		return
+	}
+	var ev *ssa.Call
+	for _, call := range c.P.CallsTo(nf, "path/filepath.EvalSymlinks") {
+		ev, _ = call.(*ssa.Call)
+	}
+	if ev == nil {
+		c.R.Fail(rule, c.name(nf)+"/resolves-root", c.P.Pos(nf.Pos()), "NewFS no longer resolves symlinks in the root path")
+		return
+	}
+	c.ObErrChecked(rule+"/checked", ev)
+	resolved := func(v ssa.Value) bool {
+		v = eng.Canon(v)
+		e, ok := v.(*ssa.Extract)
+		return ok && e.Index == 0 && e.Tuple == ssa.Value(ev)
+	}
+	stores := fieldStoresIn(nf, "fsutil.fs.root")
+	c.R.Floor(rule, "stores to fs.root in NewFS", len(stores), 1)
+	for i, st := range stores {
+		c.R.Check(resolved(st.Val), rule, fmt.Sprintf("%s/root-store#%d/resolved", c.name(nf), i+1), c.pos(st), "fs.root is the resolved path",
+			"fs.root is not the path filepath.EvalSymlinks returned: with a root given as a symlink to a directory filepath.WalkDir lstats the link, and the walk of the whole tree is silently empty")
+	}
+	// the directory test is made on the resolved path and guards the success return
+	for _, call := range c.P.CallsTo(nf, "os.Stat", "os.Lstat") {
+		c.ObErrChecked(rule+"/checked", call)
+		c.R.Check(resolved(call.Common().Args[0]), rule, c.siteName(call)+"/arg", c.pos(call), "the resolved path is inspected", "the directory test is not made on the resolved path")
+	}
+	x := c.explorer(nf)
+	as := map[string]bool{}
+	for _, k := range c.dirTestKeys(nf, x, func(v ssa.Value) bool { return true }) {
+		as[k] = false
+	}
+	if len(as) == 0 {
+		c.R.Fail(rule, c.name(nf)+"/directory-test", c.P.Pos(nf.Pos()), "NewFS has no directory test of the root")
+	} else {
+		hit, und := c.SuccessAvoiding(nf, nil, as, nil, nil)
+		c.R.Check(!und && hit == nil, rule, c.name(nf)+"/directory-test", c.P.Pos(nf.Pos()), "a root that is not a directory is an error", "NewFS succeeds although the root is not a directory")
 	}
 }
